@@ -169,7 +169,7 @@ static inline void *psDynBufAppendOctets(psDynBuf_t *db, const void *data,
 {
     void *loc = psDynBufAppendSize(db, len);
 
-    if (loc)
+    if (loc && len > 0)
     {
         Memcpy(loc, data, len);
     }
@@ -502,7 +502,7 @@ static __inline int psParseBufTryParseBigEndianUint32(psParseBuf_t *pb,
         return 0;
     }
 
-    val = (*pb->buf.start << 24); pb->buf.start++;
+    val = ((uint32_t) *pb->buf.start << 24); pb->buf.start++;
     val |= (*pb->buf.start << 16); pb->buf.start++;
     val |= (*pb->buf.start << 8); pb->buf.start++;
     val |= *pb->buf.start; pb->buf.start++;
